@@ -121,6 +121,16 @@ func catalog(p ScenParams) *WSpec {
 		spl := ProcSpec{Name: "split", Kind: "splitter", Ins: []string{"file"}}
 		w.Procs = []ProcSpec{src, spl, simpleProc("q", kind), simpleProc("r", kind)}
 		w.Edges = []Edge{fe("src", "out", "split", "file"), fe("split", "split_file", "q", "in"), fe("split", "split_file", "r", "in")}
+	case "gsplit14": // FileSplitter parts (IPs created before their files exist) fanned out to a tagging arm and a sibling: split -> {tg -> d, c}
+		spl := ProcSpec{Name: "split", Kind: "splitter", Ins: []string{"file"}}
+		tg := ProcSpec{Name: "tg", Kind: "tagger", TagKey: "k", Ins: []string{"in"}}
+		w.Procs = []ProcSpec{src, spl, tg, simpleProc("d", kind), simpleProc("c", kind)}
+		w.Edges = []Edge{fe("src", "out", "split", "file"), fe("split", "split_file", "tg", "in"), fe("split", "split_file", "c", "in"), fe("tg", "out", "d", "in")}
+	case "g6c": // a two-in-port task whose streams have DIFFERENT lengths (src: n items, src2: n+1): the extra item forms no task
+		src2 := ProcSpec{Name: "src2", Kind: "src", Items: srcItems("jn", p.Items+1)}
+		j := ProcSpec{Name: "j", Kind: kind, Ins: []string{"x", "y"}, Outs: []OutSpec{{Name: "out", Pattern: "{i:x}.j"}}}
+		w.Procs = []ProcSpec{src, src2, j}
+		w.Edges = []Edge{fe("src", "out", "j", "x"), fe("src2", "out", "j", "y")}
 	case "gjoin": // src(k) -> StreamToSubStream -> {i:x|join:SEP}
 		f := strings.SplitN(p.Extra, "|", 2) // "SEP|modifier"
 		j := ProcSpec{Name: "j", Kind: "joiner", JoinSep: f[0]}
